@@ -584,6 +584,25 @@ func (e *nilMapEngine) fieldByFlow(fa *ssa.FieldAddr, load *ssa.UnOp, depth int)
 	if dominating {
 		return true, "the function assigns an allocated map to the field before the store", true
 	}
+	// a struct parameter passed by value is spilled into a local: `t0 = local T; *t0 = param` — the
+	// field then is whatever the callers put into the struct they pass
+	if al, isAlloc := fa.X.(*ssa.Alloc); isAlloc {
+		for _, ref := range *al.Referrers() {
+			st, isStore := ref.(*ssa.Store)
+			if !isStore || st.Addr != ssa.Value(al) {
+				continue
+			}
+			if prm, isParam := st.Val.(*ssa.Parameter); isParam {
+				okAll, why := e.paramStructFieldAllocated(prm, fa.Field, depth)
+				return okAll, why, true
+			}
+		}
+	}
+	// base handed in by the callers: every caller must pass an object whose field is allocated
+	if prm, isParam := fa.X.(*ssa.Parameter); isParam {
+		okAll, why := e.paramObjFieldAllocated(prm, fa.Field, depth)
+		return okAll, why, true
+	}
 	// base produced by a module constructor whose every return initialises the field
 	base := fa.X
 	if call, isCall := base.(*ssa.Call); isCall {
@@ -676,4 +695,146 @@ func (e *nilMapEngine) elementAllocated(lk *ssa.Lookup, at ssa.Instruction, dept
 		return true, "the element is created under a presence test on the same key before the store"
 	}
 	return false, "element of a map of maps with no dominating presence test that creates it"
+}
+
+// objFieldAllocated: v is a pointer to a struct; is its field `field` an allocated map at this point?
+func (e *nilMapEngine) objFieldAllocated(v ssa.Value, field int, depth int) (bool, string) {
+	if depth > 10 {
+		return false, "derivation too deep"
+	}
+	switch x := v.(type) {
+	case *ssa.Alloc:
+		for _, ref := range *x.Referrers() {
+			f2, ok := ref.(*ssa.FieldAddr)
+			if !ok || f2.Field != field {
+				continue
+			}
+			for _, r2 := range *f2.Referrers() {
+				if s, ok := r2.(*ssa.Store); ok && s.Addr == f2 {
+					if okk, _ := e.allocated(s.Val, s, depth+1); okk {
+						return true, "the object is built with the field allocated"
+					}
+				}
+			}
+		}
+		return false, "the object is built without allocating the field"
+	case *ssa.Phi:
+		for _, ed := range x.Edges {
+			if ok, why := e.objFieldAllocated(ed, field, depth+1); !ok {
+				return false, why
+			}
+		}
+		return true, "allocated on every incoming path"
+	case *ssa.Parameter:
+		return e.paramObjFieldAllocated(x, field, depth+1)
+	case *ssa.Call:
+		callee := x.Common().StaticCallee()
+		if callee == nil || callee.Blocks == nil {
+			return false, "object returned by a call that cannot be resolved"
+		}
+		rets := 0
+		for _, b := range callee.Blocks {
+			for _, ins := range b.Instrs {
+				if r, ok := ins.(*ssa.Return); ok && len(r.Results) > 0 {
+					rets++
+					if okk, why := e.objFieldAllocated(r.Results[0], field, depth+1); !okk {
+						return false, fnName(callee) + ": " + why
+					}
+				}
+			}
+		}
+		return rets > 0, fmt.Sprintf("%s allocates the field in the value it returns", fnName(callee))
+	}
+	return false, fmt.Sprintf("object of unknown origin (%T)", v)
+}
+
+func (e *nilMapEngine) paramObjFieldAllocated(p *ssa.Parameter, field int, depth int) (bool, string) {
+	fn := p.Parent()
+	idx := -1
+	for i, q := range fn.Params {
+		if q == p {
+			idx = i
+		}
+	}
+	node := e.c.callGraph().Nodes[fn]
+	if idx < 0 || node == nil {
+		return false, "parameter without callers"
+	}
+	seen := 0
+	for _, in := range node.In {
+		caller := in.Caller.Func
+		if caller == nil || !e.c.P.inModule(caller) {
+			continue
+		}
+		if _, reachable := e.reach[caller]; !reachable {
+			continue
+		}
+		args := in.Site.Common().Args
+		ai := idx
+		if in.Site.Common().IsInvoke() {
+			ai = idx - 1
+		}
+		if ai < 0 || ai >= len(args) {
+			return false, "cannot line up the argument"
+		}
+		seen++
+		if ok, why := e.objFieldAllocated(args[ai], field, depth+1); !ok {
+			return false, fmt.Sprintf("caller %s: %s", fnName(caller), why)
+		}
+	}
+	if seen == 0 {
+		return false, fmt.Sprintf("parameter %s of %s has no reachable caller", p.Name(), fnName(fn))
+	}
+	return true, fmt.Sprintf("every one of %d callers passes an object whose field is allocated", seen)
+}
+
+// paramStructFieldAllocated: p is a struct passed by value; every caller must pass a struct whose
+// field is an allocated map (a composite literal with the field set, or a copy of such a value).
+func (e *nilMapEngine) paramStructFieldAllocated(p *ssa.Parameter, field int, depth int) (bool, string) {
+	fn := p.Parent()
+	idx := -1
+	for i, q := range fn.Params {
+		if q == p {
+			idx = i
+		}
+	}
+	node := e.c.callGraph().Nodes[fn]
+	if idx < 0 || node == nil {
+		return false, "parameter without callers"
+	}
+	seen := 0
+	for _, in := range node.In {
+		caller := in.Caller.Func
+		if caller == nil || !e.c.P.inModule(caller) {
+			continue
+		}
+		if _, reachable := e.reach[caller]; !reachable {
+			continue
+		}
+		args := in.Site.Common().Args
+		ai := idx
+		if in.Site.Common().IsInvoke() {
+			ai = idx - 1
+		}
+		if ai < 0 || ai >= len(args) {
+			return false, "cannot line up the argument"
+		}
+		seen++
+		ok, why := false, "the struct argument is not a literal built by the caller"
+		switch a := args[ai].(type) {
+		case *ssa.UnOp:
+			if al, isAlloc := a.X.(*ssa.Alloc); isAlloc && a.Op == token.MUL {
+				ok, why = e.objFieldAllocated(al, field, depth+1)
+			}
+		case *ssa.Parameter:
+			ok, why = e.paramStructFieldAllocated(a, field, depth+1)
+		}
+		if !ok {
+			return false, fmt.Sprintf("caller %s: %s", fnName(caller), why)
+		}
+	}
+	if seen == 0 {
+		return false, fmt.Sprintf("parameter %s of %s has no reachable caller", p.Name(), fnName(fn))
+	}
+	return true, fmt.Sprintf("every one of %d callers passes a struct whose field is allocated", seen)
 }
